@@ -848,3 +848,54 @@ def special_value_cases(tier, seed):
                      {"op": "index", "args": [3], "flat": n - 1}, {"op": "index", "args": [1], "flat": n - 1}]
             cases.append(steps)
     return cases
+
+
+# ---------------------------------------------------------------------------------------------
+# C12, relational part: a program and its handle-transparent variants must produce bitwise identical values
+# and gradients (also in the real domain, where the specification gives no exact number)
+def variant_groups(bases, rnd):
+    cases = []
+    for b in bases:
+        cases.append(b)
+        cases += variants_of(b, rnd)
+    return cases          # groups of three consecutive cases: base, variant 1, variant 2
+
+
+def relate_variants(res, prog_path, ev_path, workdir):
+    """post-processing hook: adds a mismatch (why = "variant-differs") when a variant's recorded digests differ from
+    its base program's.  Compared: the digest of the value created by every operation step (matched by result
+    handle) and the gradient digests of every handle of the base program after the last pass.  A plain equality of
+    recorded observations; no reference values are involved."""
+    import json
+    by_case = {}
+    with open(ev_path) as f:
+        for ln in f:
+            e = json.loads(ln)
+            by_case.setdefault(e["case"], []).append(e)
+    bad_cases = {m["case"] for m in res["mismatches"]} | {u["case"] for u in res["unspec"]}
+
+    def signature(evs):
+        vals, grads = {}, {}
+        for e in evs:
+            if "new" in e and "res" in e and e["op"] not in ("clone", "grad"):
+                vals[(e["op"], e["res"])] = e["new"]["x"]
+            if e["op"] == "backward" and not e.get("panic"):
+                grads = {o["h"]: o["gt"]["x"] for o in e["live"] if "gt" in o}
+        return vals, grads
+
+    ncmp = 0
+    for c in sorted(by_case):
+        if c % 3 != 0 or c in bad_cases:
+            continue
+        bv, bg = signature(by_case[c])
+        for k in (1, 2):
+            if c + k not in by_case or (c + k) in bad_cases:
+                continue
+            vv, vg = signature(by_case[c + k])
+            ncmp += 1
+            diff = [key for key in bv if key in vv and vv[key] != bv[key]] + [h for h in bg if h in vg and vg[h] != bg[h]]
+            if diff:
+                res["mismatches"].append({"case": c + k, "i": by_case[c + k][-1]["i"], "op": "variant", "why": "variant-differs"})
+                res["summary"]["bad"] = res["summary"].get("bad", 0) + 1
+    res["summary"]["variants_compared"] = ncmp
+    return res
